@@ -1,2 +1,95 @@
-// Package c02: check for property C02 (see /verif/DESIGN.md §3 C02).
+// Package c02: format conversion changes syntax only; nesting flattens and
+// unflattens losslessly; every spelling of a format/separator selection is
+// equivalent to its documented expansion (see /verif/DESIGN.md §3 C02).
+//
+// Three exhaustive bounded enumerations, each on whole in-process invocations:
+//
+//	convert: record streams x ordered pairs/triples of formats (return trip, path independence)
+//	nest:    JSON documents of depth <= 3 x flatten separators x tabular formats
+//	flags:   the complete cli.FLAG_TABLE, separator aliases, .mlrrc spellings
 package c02
+
+import (
+	"fmt"
+	"sort"
+	"strings"
+
+	"verif/harness/vf"
+)
+
+func init() {
+	vf.Register(&vf.CheckDef{ID: "C02", Level: "model_checking", Run: run,
+		Workers: map[string]vf.WorkerFunc{"convert": convertWorker, "nest": nestWorker, "flags": flagsWorker}})
+}
+
+func run(c *vf.Ctx) {
+	c.Rule = "convert: one case = one record stream (families of key lists x every value assignment) run through every ordered pair/triple of formats whose domains contain it; distinct = distinct stream with at least one pair inside the domain intersection. " +
+		"nest: one case = one JSON document (every value of depth<=3 over keys {a,b,1,2}, 6 leaf kinds, arrays<=2, <=5 leaves) x 3 flatten separators x 4 tabular formats. " +
+		"flags: one case = one spelling (flag of cli.FLAG_TABLE / -i,-o,--io form / separator alias x flag / .mlrrc text) compared with its name- or doc-derived expansion on every corpus input."
+	c.Assume("data outside the intersection of the formats' representable domains is excluded (the property says 'representable in both'); the predicates are in formats.go and both sides are counted under counters domain-in/domain-out/pair-out/triple-out")
+	c.Assume("value text, key names and order are compared; the JSON type (quoted or not) of a scalar re-read from text is C06's subject and is not asserted")
+	c.Assume("a step from a non-nesting into a nesting format auto-unflattens keys containing the flatten separator (documented): such keys are outside the domain of that path")
+	c.Assume("records are non-empty and have distinct keys; values are valid UTF-8")
+
+	res := c.RunPool(vf.PoolSpec{Worker: "convert", Shards: 64})
+	c.Extra["convert_distinct_streams"] = vf.SetSize(res, "streams")
+	nd := int64(vf.SetSize(res, "streams"))
+
+	res2 := c.RunPool(vf.PoolSpec{Worker: "nest", Shards: 64})
+	c.Extra["nest_distinct_documents_in_guard"] = vf.SetSize(res2, "docs")
+	nd += int64(vf.SetSize(res2, "docs"))
+
+	res3 := c.RunPool(vf.PoolSpec{Worker: "flags", Shards: 48})
+	finishFlags(c, res3)
+	nd += int64(vf.SetSize(res3, "spellings"))
+
+	c.DistinctNontrivial = nd
+	summarizeCounters(c)
+}
+
+// summarizeCounters folds the per-symbol counters into Extra maps so that the
+// evidence shows hit counts per format pair, value, family, flag section.
+func summarizeCounters(c *vf.Ctx) {
+	groups := map[string]map[string]int64{}
+	for k, v := range c.Counters {
+		i := strings.Index(k, ":")
+		if i < 0 {
+			continue
+		}
+		g := k[:i]
+		if groups[g] == nil {
+			groups[g] = map[string]int64{}
+		}
+		groups[g][k[i+1:]] = v
+	}
+	for g, m := range groups {
+		c.Extra["hits_"+g] = m
+		for k := range m {
+			delete(c.Counters, g+":"+k)
+		}
+	}
+	// a symbol never exercised is a harness bug
+	var never []string
+	for _, f := range allFormats() {
+		if f.thorough && c.Quick() {
+			continue
+		}
+		if groups["domain-in"][f.name] == 0 {
+			never = append(never, "format never inside its domain: "+f.name)
+		}
+		seenOut := false
+		for k := range groups["domain-out"] {
+			if strings.HasPrefix(k, f.name+":") {
+				seenOut = true
+			}
+		}
+		if !seenOut && f.name != "json" && f.name != "jsonl" && f.name != "yaml" {
+			never = append(never, "domain predicate never false: "+f.name)
+		}
+	}
+	sort.Strings(never)
+	for _, n := range never {
+		c.Broken("vacuity: %s", n)
+	}
+	_ = fmt.Sprint
+}
